@@ -30,6 +30,14 @@ var (
 	samplers   = map[int64]int{}
 )
 
+// exempt lists frame substrings of background goroutines that are outside the
+// system under test and never interact with it (e.g. a metrics ticker of a
+// vendored dependency that sleeps in a loop); they are treated as waiting.
+var exempt []string
+
+// Exempt registers a background goroutine (by a frame substring) as irrelevant to quiescence.
+func Exempt(frame string) { exempt = append(exempt, frame) }
+
 // Activity is bumped by instrumented components (transports, directors, op
 // registries) whenever something happens. Quiescence requires it to be stable.
 var Activity int64
@@ -189,6 +197,15 @@ func QuiesceOr(ch <-chan struct{}, maxWait time.Duration) (string, []G) {
 				continue
 			}
 			if !Waiting(g.State) {
+				ex := false
+				for _, f := range exempt {
+					if g.Has(f) {
+						ex = true
+					}
+				}
+				if ex {
+					continue
+				}
 				quiet = false
 				break
 			}
